@@ -383,4 +383,311 @@ Section Chain.
           eapply simM_bind; [apply (run_fresh L _ rest Hlr Hstb) |].
           intros o1 o2. apply simM_pure. intros ->. apply simM_ret. intros; reflexivity.
   Qed.
+
+  (* tg[key]?.(args) link link ... *)
+  Theorem chain_call_index F e' i n tg key args rest :
+    frag e' -> flatten e' = Some (EIndex tg key OcNone, LCall args :: rest, true) -> no_delete rest ->
+    f_optchain F = true -> storeThis i = false ->
+    cap_ok S w tg -> call_intact S w ->
+    (forall k, L2 n k -> ~ In k (tmps tg)) -> (forall k, L2 n k -> ~ In k (tmps key)) ->
+    links_fresh (L2 n) (LCall args :: rest) ->
+    forall m s, observe (ev (fst (fst (lowerOptionalChain F e' i out0 n))) m s) = observe (ev e' m s).
+  Proof.
+    intros Hfr Hfl Hnd HF Hst Hok Hci Hdt Hdk Hlf.
+    destruct (native_chain e' Hfr _ _ _ Hfl) as [Hne Hnat].
+    unfold lowerOptionalChain. rewrite Hfl, (frag_not_delete e' Hfr), HF.
+    cbn [negb thisArg out0]. destruct (capture tg n) as [[f a] n1] eqn:Hc.
+    pose proof (capture_next tg n f a n1 Hc) as Hn1.
+    unfold capture at 1. cbn [is_inline_value].
+    rewrite Hst. cbn [andb]. rewrite apply_links_this. cbn [fst].
+    set (L := L2 n).
+    assert (Ln : L n) by (unfold L, L2; lia).
+    assert (Ln1 : L n1) by (unfold L, L2; destruct (is_inline_value tg); lia).
+    apply (simM_observe S L (fun _ a b => valof a = valof b)); [intros ? ? ? H; exact H |].
+    eapply simM_ext; [intros; reflexivity | intros m0 s0; apply Hnat |].
+    assert (Hla : forall k, L k -> ~ In k (flat_map tmps args)).
+    { intros k Hk. apply (Hlf (LCall args) (or_introl eq_refl) k Hk). }
+    assert (Hlr : links_fresh L rest) by (intros l Hl; apply Hlf; right; exact Hl).
+    cbn [eval access].
+    (* object *)
+    apply simM_assoc_l. apply simM_assoc_l. apply simM_assoc_l. apply simM_assoc_r. eapply simM_bind.
+    - apply (piece_first S w th L (fun _ => True) tg n f a n1 Hc Hok Ln Hdt (stable_true L)). auto.
+    - intros x y. apply simM_pure. intro E. rewrite E.
+      (* the key, then the member *)
+      apply simM_assoc_l. apply simM_assoc_r. eapply simM_bind.
+      { apply (simM_fresh S w th L _ key Hdk).
+        apply stable_and; [apply remp_stable; exact Ln | apply stable_true]. }
+      intros kr kr0. apply simM_pure. intros ->.
+      apply simM_assoc_l. apply simM_assoc_r. eapply simM_bind; [apply simM_lift |].
+      intros fv fv0. apply simM_pure. intros ->.
+      apply simM_ret_l. apply simM_ret_r. cbn [valof].
+      eapply (simM_left_write S L _ (fun m0 => tget m0 n1 = fv0 /\ remp S w th tg n (valof y) m0)); [exact Ln1 | |].
+      + intros m0 [Hr _]. split; [apply tget_tset_same |].
+        apply remp_tset'; [| exact Hr]. intro Hi. rewrite Hi in Hn1. lia.
+      + apply simM_ret_l. cbn [valof ov xorb].
+        destruct (nullish fv0) eqn:Hnull; cbn [truthy].
+        * apply simM_ret_l. apply simM_ret. intros; reflexivity.
+        * (* the call with explicit this, then the remaining links *)
+          eapply simM_ext;
+            [ intros m0 s0; apply (bind_cong_l _ _ _ m0 s0 (ev_fold rest Hnd (ECallThis (ETmp n1) a args)))
+            | intros; reflexivity |].
+          cbn [eval run run1]. fold (evl args).
+          assert (Hstb : stable L (fun m0 : tstore => tget m0 n1 = fv0 /\ remp S w th tg n (valof y) m0)).
+          { apply stable_and; [apply stable_tget; exact Ln1 | apply remp_stable; exact Ln]. }
+          repeat apply simM_assoc_l.
+          eapply simM_left_pure; [intros m0 s0 [Hr _]; cbn; rewrite Hr; reflexivity |].
+          cbn [valof ov]. repeat apply simM_assoc_l.
+          eapply simM_left_skip.
+          { intros m0 s0 _. unfold lift. destruct (Hci fv0 s0 Hnull) as [c Ec]. rewrite Ec. eexists; reflexivity. }
+          intros _. repeat apply simM_assoc_l.
+          eapply simM_left_pure;
+            [intros m0 s0 [_ Hr]; apply (piece_again S w th tg n f a n1 _ m0 s0 Hc Hr) |].
+          cbn [valof ov baseof]. repeat apply simM_assoc_l. repeat apply simM_assoc_r.
+          eapply simM_bind; [apply (simM_fresh_list S w th L _ args Hla Hstb) |].
+          intros vs vs0. apply simM_pure. intros ->.
+          repeat apply simM_assoc_l. repeat apply simM_assoc_r.
+          eapply simM_bind; [apply simM_lift |].
+          intros r r0. apply simM_pure. intros ->. apply simM_ret_l. apply simM_ret_r.
+          eapply simM_ext; [intros; reflexivity | intros m0 s0; symmetry; apply bind_ret_r |].
+          eapply simM_bind; [apply (run_fresh L _ rest Hlr Hstb) |].
+          intros o1 o2. apply simM_pure. intros ->. apply simM_ret. intros; reflexivity.
+  Qed.
+
+  Lemma simM_post_right {A B} (L : tpred) (Pre : tstore -> Prop) (Post : tstore -> A -> B -> Prop)
+        (Q : B -> Prop) cl cn :
+    simM L Pre Post cl cn ->
+    (forall m s, match cn m s with (_, _, _, Ok b) => Q b | _ => True end) ->
+    simM L Pre (fun m a b => Post m a b /\ Q b) cl cn.
+  Proof.
+    intros H HQ m m0 s Hs Hp. specialize (H m m0 s Hs Hp). specialize (HQ m0 s).
+    destruct (cl m s) as [[[t1 m1] s1] r1], (cn m0 s) as [[[t2 m2] s2] r2].
+    destruct H as (-> & -> & Hs' & Hr). repeat split; auto. destruct r1, r2; auto.
+  Qed.
+
+  Lemma start_nonmember {A} (start : expr) (X : expr -> Z -> A) (Y : expr -> expr -> A) (Z0 : A) :
+    ends_with_access start = false ->
+    match start with
+    | EDot tg name _ => X tg name
+    | EIndex tg k _ => Y tg k
+    | _ => Z0
+    end = Z0.
+  Proof. destruct start; cbn; intro H; try discriminate H; reflexivity. Qed.
+
+  (* start?.(args) link link ... where start is not a member access: this is undefined *)
+  Theorem chain_call_plain F e' i n start args rest :
+    frag e' -> flatten e' = Some (start, LCall args :: rest, true) -> no_delete rest ->
+    f_optchain F = true -> storeThis i = false ->
+    start <> ENull -> start <> EUndef -> ends_with_access start = false ->
+    (forall m s, match ev start m s with (_, _, _, Ok o) => baseof o = VUndef | _ => True end) ->
+    cap_ok S w start -> ~ In n (tmps start) -> links_fresh (L1 n) (LCall args :: rest) ->
+    forall m s, observe (ev (fst (fst (lowerOptionalChain F e' i out0 n))) m s) = observe (ev e' m s).
+  Proof.
+    intros Hfr Hfl Hnd HF Hst Hn1 Hn2 Hna Hnb Hok Hfresh Hlf.
+    destruct (native_chain e' Hfr _ _ _ Hfl) as [Hne Hnat].
+    unfold lowerOptionalChain. rewrite Hfl, (frag_not_delete e' Hfr), (start_match start _ _ Hn1 Hn2), HF.
+    cbn [negb thisArg out0].
+    rewrite (start_nonmember start _ _ _ Hna).
+    destruct (capture start n) as [[first again] n3] eqn:Hc.
+    rewrite Hst. cbn [andb]. rewrite (apply_links_plain _ Hne again true n3). cbn [fst].
+    set (L := L1 n).
+    apply (simM_observe S L (fun _ a b => valof a = valof b)); [intros ? ? ? H; exact H |].
+    eapply simM_ext; [intros; reflexivity | intros m0 s0; apply Hnat |].
+    assert (Hds : forall k, L k -> ~ In k (tmps start)) by (intros k ->; exact Hfresh).
+    assert (Hnd' : no_delete (LCall args :: rest)) by (constructor; [discriminate | exact Hnd]).
+    cbn [eval].
+    apply simM_assoc_l. eapply simM_bind.
+    - apply simM_post_right with (Q := fun o => baseof o = VUndef); [| exact Hnb].
+      apply (piece_first S w th L (fun _ => True) start n first again n3 Hc Hok eq_refl Hds (stable_true L)). auto.
+    - intros x y. apply simM_ret_l.
+      eapply simM_conseq with (Pre := fun m0 => (valof x = valof y /\ baseof y = VUndef) /\ remp S w th start n (valof y) m0)
+                              (Post := fun _ a b => valof a = valof b);
+        [intros m0 [[E [Hr _]] Hb]; auto | intros; assumption |].
+      apply simM_pure. intros [E Hb]. cbn [valof ov]. rewrite E.
+      destruct (nullish (valof y)) eqn:Hnull; cbn [xorb truthy].
+      + apply simM_ret_l. apply simM_ret. intros; reflexivity.
+      + assert (Ey : y = ov (valof y)).
+        { destruct y; cbn in *; [subst; reflexivity | discriminate Hnull]. }
+        eapply simM_ext;
+          [ intros m0 s0; apply (bind_cong_l _ _ _ m0 s0 (ev_fold _ Hnd' again))
+          | intros m0 s0;
+            replace (run (LCall args :: rest) y m0 s0) with (run (LCall args :: rest) (ov (valof y)) m0 s0)
+              by (rewrite <- Ey; reflexivity);
+            symmetry; apply bind_ret_r |].
+        apply simM_assoc_l. eapply simM_left_pure.
+        * intros m0 s0 Hr. apply (piece_again S w th start n first again n3 _ m0 s0 Hc Hr).
+        * cbn beta. eapply simM_bind.
+          -- apply run_fresh; [exact Hlf | apply remp_stable; reflexivity].
+          -- intros a b. apply simM_pure. intros ->. apply simM_ret. intros; reflexivity.
+  Qed.
+
+  (* null?.a.b(c): the chain is dead code, whatever the feature set *)
+  Theorem chain_dead F e' i childOut n start ls swc :
+    frag e' -> flatten e' = Some (start, ls, swc) -> start = ENull \/ start = EUndef ->
+    forall m s, observe (ev (fst (fst (lowerOptionalChain F e' i childOut n))) m s) = observe (ev e' m s).
+  Proof.
+    intros Hfr Hfl Hs m s. destruct (native_chain e' Hfr _ _ _ Hfl) as [_ Hnat]. rewrite Hnat.
+    unfold lowerOptionalChain. rewrite Hfl, (frag_not_delete e' Hfr).
+    destruct Hs as [-> | ->]; reflexivity.
+  Qed.
+
+  (* ---- delete of a chain ---- *)
+  Definition run1d (l : link) (r : out) : M S out :=
+    match l with
+    | LDot name => bind (lift (w_del w (valof r) (VStr name))) (fun v => ret (ov v))
+    | LIndex k => bind (ev k) (fun kr => bind (lift (w_del w (valof r) (valof kr))) (fun v => ret (ov v)))
+    | _ => ret (ov (VBool true))
+    end.
+
+  Definition member_link (l : link) : Prop := match l with LDot _ | LIndex _ => True | _ => False end.
+
+  Lemma run1d_fresh (L : tpred) Pre l r :
+    (forall k, L k -> ~ In k (link_tmps l)) -> stable L Pre ->
+    simM L Pre (fun m a b => a = b /\ Pre m) (run1d l r) (run1d l r).
+  Proof.
+    intros Hd Hst. destruct l; cbn [run1d link_tmps] in *; try (apply simM_ret; auto).
+    - eapply simM_bind; [apply simM_lift |]. intros a b. apply simM_pure. intros ->. apply simM_ret. auto.
+    - eapply simM_bind; [apply (simM_fresh S w th L Pre k Hd Hst) |]. intros a b. apply simM_pure. intros ->.
+      eapply simM_bind; [apply simM_lift |]. intros x y. apply simM_pure. intros ->. apply simM_ret. auto.
+  Qed.
+
+  Lemma ev_delete_link l result m s : member_link l ->
+    ev (EDelete (link_expr l result)) m s = bind (ev result) (run1d l) m s.
+  Proof.
+    intro Hm. destruct l; try contradiction; cbn [link_expr eval access run1d].
+    - apply bind_post with (Q := fun _ => True); [intros; destruct (ev result m0 s0) as [[[? ?] ?] [?|?]]; exact I |].
+      intros r _ m1 s1. rewrite bind_assoc.
+      apply bind_post with (Q := fun _ => True); [intros; unfold lift; destruct (w_del w (valof r) (VStr name) s0) as [[? ?] [?|?]]; exact I |].
+      intros v _ m2 s2. rewrite bind_ret_l. reflexivity.
+    - apply bind_post with (Q := fun _ => True); [intros; destruct (ev result m0 s0) as [[[? ?] ?] [?|?]]; exact I |].
+      intros r _ m1 s1. rewrite bind_assoc.
+      apply bind_post with (Q := fun _ => True); [intros; destruct (ev k m0 s0) as [[[? ?] ?] [?|?]]; exact I |].
+      intros kr _ m2 s2. rewrite bind_assoc.
+      apply bind_post with (Q := fun _ => True); [intros; unfold lift; destruct (w_del w (valof r) (valof kr) s0) as [[? ?] [?|?]]; exact I |].
+      intros v _ m3 s3. rewrite bind_ret_l. reflexivity.
+  Qed.
+
+  (* native: delete (t.name) / delete (t[k]) where t.name / t[k] is the end of a chain *)
+  Lemma native_delete d : frag d -> ends_with_access d = true ->
+    exists start ls0 l swc,
+      flatten d = Some (start, ls0 ++ [l], swc) /\ member_link l /\ swc = head_call (ls0 ++ [l]) /\
+      forall m s, ev (EDelete d) m s =
+        bind (ev start) (fun r => if nullish (valof r) then ret (ov (VBool true))
+                                  else bind (run ls0 r) (run1d l)) m s.
+  Proof.
+    intros Hf Ha. destruct d; cbn in Ha; try discriminate Ha; cbn [frag] in Hf.
+    - (* EDot *)
+      destruct o; try contradiction.
+      + exists d, [], (LDot name), false. cbn [flatten app]. repeat split; auto.
+        intros m s. cbn [eval access run run1d].
+        apply bind_post with (Q := fun _ => True); [intros; destruct (ev d m0 s0) as [[[? ?] ?] [?|?]]; exact I |].
+        intros r _ m1 s1. destruct (nullish (valof r)).
+        * rewrite bind_ret_l. reflexivity.
+        * rewrite bind_ret_l. rewrite bind_assoc.
+          apply bind_post with (Q := fun _ => True); [intros; unfold lift; destruct (w_del w (valof r) (VStr name) s0) as [[? ?] [?|?]]; exact I |].
+          intros v _ m2 s2. rewrite bind_ret_l. reflexivity.
+      + destruct (frag_flatten d Hf) as (st & ls0 & c0 & E0 & Hne).
+        destruct (native_chain d Hf st ls0 c0 E0) as [_ Hnat].
+        exists st, ls0, (LDot name), c0. cbn [flatten]. rewrite E0. repeat split; auto.
+        { rewrite head_call_app by exact Hne. apply (flatten_head d Hf st ls0 c0 E0). }
+        intros m s. cbn [eval]. rewrite (bind_cong_l _ _ _ m s Hnat). rewrite bind_assoc.
+        apply bind_post with (Q := fun _ => True); [intros; destruct (ev st m0 s0) as [[[? ?] ?] [?|?]]; exact I |].
+        intros r _ m1 s1. destruct (nullish (valof r)).
+        * rewrite bind_ret_l. cbn [access]. rewrite bind_ret_l. reflexivity.
+        * apply bind_post with (Q := fun o => o <> OShort); [apply run_nonshort, Hne |].
+          intros a Hna m2 s2. destruct a; [| contradiction]. cbn [access run1d valof]. rewrite bind_assoc.
+          apply bind_post with (Q := fun _ => True); [intros; unfold lift; destruct (w_del w v (VStr name) s0) as [[? ?] [?|?]]; exact I |].
+          intros x _ m3 s3. rewrite bind_ret_l. reflexivity.
+    - (* EIndex *)
+      destruct o; try contradiction.
+      + exists d1, [], (LIndex d2), false. cbn [flatten app]. repeat split; auto.
+        intros m s. cbn [eval access run run1d].
+        apply bind_post with (Q := fun _ => True); [intros; destruct (ev d1 m0 s0) as [[[? ?] ?] [?|?]]; exact I |].
+        intros r _ m1 s1. destruct (nullish (valof r)).
+        * rewrite bind_ret_l. reflexivity.
+        * rewrite bind_ret_l. rewrite bind_assoc.
+          apply bind_post with (Q := fun _ => True); [intros; destruct (ev d2 m0 s0) as [[[? ?] ?] [?|?]]; exact I |].
+          intros kr _ m2 s2. rewrite bind_assoc.
+          apply bind_post with (Q := fun _ => True); [intros; unfold lift; destruct (w_del w (valof r) (valof kr) s0) as [[? ?] [?|?]]; exact I |].
+          intros v _ m3 s3. rewrite bind_ret_l. reflexivity.
+      + destruct (frag_flatten d1 Hf) as (st & ls0 & c0 & E0 & Hne).
+        destruct (native_chain d1 Hf st ls0 c0 E0) as [_ Hnat].
+        exists st, ls0, (LIndex d2), c0. cbn [flatten]. rewrite E0. repeat split; auto.
+        { rewrite head_call_app by exact Hne. apply (flatten_head d1 Hf st ls0 c0 E0). }
+        intros m s. cbn [eval]. rewrite (bind_cong_l _ _ _ m s Hnat). rewrite bind_assoc.
+        apply bind_post with (Q := fun _ => True); [intros; destruct (ev st m0 s0) as [[[? ?] ?] [?|?]]; exact I |].
+        intros r _ m1 s1. destruct (nullish (valof r)).
+        * rewrite bind_ret_l. cbn [access]. rewrite bind_ret_l. reflexivity.
+        * apply bind_post with (Q := fun o => o <> OShort); [apply run_nonshort, Hne |].
+          intros a Hna m2 s2. destruct a; [| contradiction]. cbn [access run1d valof]. rewrite bind_assoc.
+          apply bind_post with (Q := fun _ => True); [intros; destruct (ev d2 m0 s0) as [[[? ?] ?] [?|?]]; exact I |].
+          intros kr _ m3 s3. rewrite bind_assoc.
+          apply bind_post with (Q := fun _ => True); [intros; unfold lift; destruct (w_del w v (valof kr) s0) as [[? ?] [?|?]]; exact I |].
+          intros x _ m4 s4. rewrite bind_ret_l. reflexivity.
+  Qed.
+
+  Lemma rund_base ls0 l a b : head_call (ls0 ++ [l]) = false -> member_link l -> valof a = valof b ->
+    forall m s, bind (run ls0 a) (run1d l) m s = bind (run ls0 b) (run1d l) m s.
+  Proof.
+    intros Hh Hm Hv m s. destruct ls0 as [| x xs].
+    - cbn [run]. rewrite !bind_ret_l. destruct l; try contradiction; cbn [run1d]; rewrite Hv; reflexivity.
+    - apply bind_cong_l. intros m0 s0. apply run_base; [discriminate | exact Hh | exact Hv].
+  Qed.
+
+  Lemma fold_links_app ls ls2 r : fold_links (ls ++ ls2) r = fold_links ls2 (fold_links ls r).
+  Proof. unfold fold_links. apply fold_left_app. Qed.
+
+  (* delete a?.b.c[k] ... : chains of any length under delete (not starting with a call) *)
+  Theorem chain_delete_plain F d i n :
+    frag d -> ends_with_access d = true ->
+    forall start ls0 l,
+    flatten d = Some (start, ls0 ++ [l], false) -> no_delete (ls0 ++ [l]) ->
+    f_optchain F = true ->
+    start <> ENull -> start <> EUndef -> cap_ok S w start ->
+    ~ In n (tmps start) -> links_fresh (L1 n) (ls0 ++ [l]) ->
+    forall m s, observe (ev (fst (fst (lowerOptionalChain F (EDelete d) i out0 n))) m s)
+              = observe (ev (EDelete d) m s).
+  Proof.
+    intros Hfr Ha start ls0 l Hfl Hnd HF Hn1 Hn2 Hok Hfresh Hlf.
+    destruct (native_delete d Hfr Ha) as (st & ls1 & l1 & c1 & E1 & Hm & Hhd & Hnat).
+    rewrite Hfl in E1. injection E1 as Est Els Ec. subst st c1.
+    apply app_inj_tail in Els. destruct Els as [<- <-].
+    unfold lowerOptionalChain. cbn [flatten]. rewrite Hfl. cbn [is_delete].
+    rewrite (start_match start _ _ Hn1 Hn2), HF. cbn [negb].
+    destruct (capture start n) as [[first again] n3] eqn:Hc.
+    cbn [ends_with_access]. rewrite andb_false_r.
+    rewrite (apply_links_plain ((ls0 ++ [l]) ++ [LDelete]) ltac:(destruct (ls0 ++ [l]); discriminate) again true n3).
+    cbn [fst]. rewrite !fold_links_app. cbn [fold_links fold_left link_expr].
+    fold (fold_links ls0 again).
+    set (L := L1 n).
+    apply (simM_observe S L (fun _ a b => valof a = valof b)); [intros ? ? ? H; exact H |].
+    eapply simM_ext; [intros; reflexivity | intros m0 s0; apply Hnat |].
+    assert (Hds : forall k, L k -> ~ In k (tmps start)) by (intros k ->; exact Hfresh).
+    assert (Hnd0 : no_delete ls0).
+    { apply Forall_forall. intros x Hx. unfold no_delete in Hnd. rewrite Forall_forall in Hnd. apply Hnd. apply in_app_iff. auto. }
+    assert (Hlf0 : links_fresh L ls0) by (intros x Hx; apply Hlf; apply in_app_iff; auto).
+    assert (Hlfl : forall k, L k -> ~ In k (link_tmps l)) by (apply Hlf; apply in_app_iff; right; left; reflexivity).
+    cbn [eval].
+    apply simM_assoc_l. eapply simM_bind.
+    - apply (piece_first S w th L (fun _ => True) start n first again n3 Hc Hok eq_refl Hds (stable_true L)). auto.
+    - intros x y. apply simM_ret_l. apply simM_pure. intro E. cbn [valof ov]. rewrite E.
+      destruct (nullish (valof y)) eqn:Hnull; cbn [xorb truthy].
+      + apply simM_ret_l. apply simM_ret. intros; reflexivity.
+      + assert (Hst : stable L (fun m0 : tstore => remp S w th start n (valof y) m0 /\ True)).
+        { apply stable_and; [apply remp_stable; reflexivity | apply stable_true]. }
+        assert (Hlow : forall m0 s0, ev (EDelete (link_expr l (fold_links ls0 again))) m0 s0
+                                   = bind (bind (ev again) (run ls0)) (run1d l) m0 s0).
+        { intros m0 s0. rewrite (ev_delete_link l (fold_links ls0 again) m0 s0 Hm).
+          apply bind_cong_l. intros m1 s1. apply (ev_fold ls0 Hnd0 again). }
+        eapply simM_ext;
+          [ intros m0 s0; apply (bind_cong_l _ _ _ m0 s0 Hlow)
+          | intros m0 s0; rewrite (rund_base ls0 l y (ov (valof y)) (eq_sym Hhd) Hm eq_refl m0 s0);
+            symmetry; apply bind_ret_r |].
+        repeat apply simM_assoc_l. eapply simM_left_pure.
+        * intros m0 s0 [Hr _]. apply (piece_again S w th start n first again n3 _ m0 s0 Hc Hr).
+        * cbn beta. repeat apply simM_assoc_l. repeat apply simM_assoc_r. eapply simM_bind.
+          -- apply run_fresh; [exact Hlf0 | exact Hst].
+          -- intros a b. apply simM_pure. intros ->. eapply simM_bind.
+             ++ apply run1d_fresh; [exact Hlfl | exact Hst].
+             ++ intros a2 b2. apply simM_pure. intros ->. cbn beta. apply simM_ret. intros; reflexivity.
+  Qed.
 End Chain.
